@@ -3,12 +3,12 @@
    Per scheme there is a reference procedure written from the published text or source of the ecosystem (coq/Ref)
    and, where a code-shaped model of the univers code exists (coq/Schemes), the theorem that the model computes the
    reference on every input of the stated domain.  The model is tied to /repo by the scheme correspondence; the
-   references of the schemes without a code-shaped model (alpm, gem, nuget, conan, maven) are run against the
-   implementation directly and are not covered by a theorem here. *)
+   references of the schemes without such a theorem (alpm: known finding; conan; pypi, whose model is the reference)
+   are run against the implementation directly. *)
 From Coq Require Import List Bool Arith Ascii String NArith ZArith.
 From UV.Base Require Import Order Res.
 From UV.Py Require Import PyStr.
-From UV.Schemes Require Import Common Generic LegacyOpenssl Gentoo GentooProofs Debian DebianProofs Semver SemverProofs Rpm Gem GemProofs Openssl Maven.
+From UV.Schemes Require Import Common Generic LegacyOpenssl Gentoo GentooProofs Debian DebianProofs Semver SemverProofs Rpm Gem GemProofs Openssl Maven Nuget NugetOrder NugetRef.
 From UV.Ref Require Deb Semver Gentoo Openssl Rpm.
 Import ListNotations.
 
@@ -53,6 +53,15 @@ Theorem C03_maven : forall n1 n2 a b, maven_ctor n1 = Ok a -> maven_ctor n2 = Ok
   maven_cmp a b = UV.Ref.Maven.ref_maven (UV.Schemes.Generic.normalize n1) (UV.Schemes.Generic.normalize n2).
 Proof. exact maven_matches_reference. Qed.
 
+(* nuget: on the versions the constructor builds, the code's comparison is NuGet.Versioning's comparison of the four
+   numbers and the release labels (the value ref_of v that NuGetVersion.Parse would produce: labels case-insensitively) *)
+Theorem C03_nuget : forall s1 s2 a b, nuget_ctor s1 = Ok a -> nuget_ctor s2 = Ok b ->
+  nuget_cmp a b = ref_value_cmp (ref_of a) (ref_of b).
+Proof. exact nuget_code_matches_reference. Qed.
+Theorem C03_nuget_reference_text : forall s1 s2 a b, UV.Ref.Nuget.nuget_parse s1 = Some a -> UV.Ref.Nuget.nuget_parse s2 = Some b ->
+  UV.Ref.Nuget.ref_nuget s1 s2 = Some (ref_value_cmp a b).
+Proof. exact ref_nuget_value. Qed.
+
 (* non-vacuity: concrete versions meet the hypotheses *)
 Example C03_domains_inhabited :
   (exists a b, deb_ctor (list_ascii_of_string "1:2.4.7-1ubuntu1~rc1") = Ok a /\ deb_ctor (list_ascii_of_string "2.4.7+dfsg-1A") = Ok b /\ dok a = true /\ dok b = true)
@@ -62,6 +71,11 @@ Proof.
   split; [|split]; [|vm_compute; reflexivity|vm_compute; reflexivity].
   eexists. eexists. split; [vm_compute; reflexivity|]. split; [vm_compute; reflexivity|]. split; vm_compute; reflexivity.
 Qed.
+
+Example C03_nuget_inhabited :
+  exists a b, nuget_ctor (list_ascii_of_string "v1.0-Beta.2") = Ok a /\ nuget_ctor (list_ascii_of_string "1.0.0.0-beta.10+x") = Ok b /\
+              nuget_cmp a b = Lt /\ UV.Ref.Nuget.ref_nuget (list_ascii_of_string "1.0-Beta.2") (list_ascii_of_string "1.0.0.0-beta.10+x") = Some Lt.
+Proof. eexists. eexists. split; [vm_compute; reflexivity|]. split; [vm_compute; reflexivity|]. split; vm_compute; reflexivity. Qed.
 
 Print Assumptions C03_deb_policy.
 Print Assumptions C03_deb_domain.
@@ -73,3 +87,5 @@ Print Assumptions C03_gem.
 Print Assumptions C03_openssl_dispatch.
 Print Assumptions C03_maven.
 Print Assumptions C03_domains_inhabited.
+Print Assumptions C03_nuget.
+Print Assumptions C03_nuget_reference_text.
